@@ -200,7 +200,10 @@ fn execute(plan: &Plan, prof: &Profile, sched_rng: &mut Rng, forced: Option<&[St
     let rx_noise = prof.rx_noise;
     let all_done = Arc::new(AtomicUsize::new(0));
     let mut workers: Vec<Box<dyn FnOnce() + Send>> = Vec::new();
+    crate::seq::WAKE_LOG.lock().unwrap().clear();
+    crate::seq::STEP_NOW.store(0, Ordering::SeqCst);
     for (tid, (prog, mut w)) in plan.progs.iter().cloned().zip(worlds.drain(..)).enumerate() {
+        w.wid = tid;
         let shared = shared.clone();
         let ctr = step_ctr.clone();
         let log = logs[tid].clone();
@@ -475,7 +478,8 @@ fn execute(plan: &Plan, prof: &Profile, sched_rng: &mut Rng, forced: Option<&[St
                 i
             },
             |tid, site, now_at| {
-                ctr.fetch_add(1, Ordering::SeqCst);
+                let now_step = ctr.fetch_add(1, Ordering::SeqCst) + 1;
+                crate::seq::STEP_NOW.store(now_step, Ordering::SeqCst);
                 tokens_cell.borrow_mut().push(format!("{tid}"));
                 let snap = main_ref.snapshot();
                 digests_ref.push(format!("{}", fnv32(&snap)));
@@ -637,6 +641,23 @@ fn execute(plan: &Plan, prof: &Profile, sched_rng: &mut Rng, forced: Option<&[St
                         }
                     }
                 }
+                "fp" => {
+                    // the request's own, accepted response read with the request's own handle must yield a view
+                    if let Some(Some(i)) = first_idx.get(&r) {
+                        if o.out.starts_with("err") {
+                            if let Some(resp) = sh.accepted.get(i) {
+                                let code: Option<u8> = f.get(2).and_then(|x| x.parse().ok());
+                                let idx: Option<u8> = f.get(3).and_then(|x| x.parse().ok());
+                                if let Some((p, len)) = dgrams(resp).first() {
+                                    let fits = p + 12 + len <= resp.len();
+                                    if fits && Some(resp[*p]) == code && Some(resp[p + 1]) == idx && idx == Some(*i) {
+                                        rep.fail(&format!("{}/delivery-refused", prof.key), &format!("first_pdu with the request's own handle answered {} although its response was accepted", o.out), &line);
+                                    }
+                                }
+                            }
+                        }
+                    }
+                }
                 "vt" => {
                     if o.out == "ok" {
                         *trims.entry(r).or_insert(0) += f[2].parse::<usize>().unwrap();
@@ -737,6 +758,80 @@ fn execute(plan: &Plan, prof: &Profile, sched_rng: &mut Rng, forced: Option<&[St
                 // retransmission or already completed by an earlier copy: only judged without them
                 if !abandoned && !prof.timeouts && !prof.tx_fail {
                     rep.fail(&format!("{}/response-rejected", prof.key), &format!("the response to an outstanding request was not accepted ({})", o.out), &line);
+                }
+            }
+        }
+    }
+    // accepting a response must wake the task that awaits it: if the request's last poll before the delivery ended
+    // Pending (its waker is registered), a wake-up of that waker must be logged while receive_frame runs
+    {
+        let wakes = crate::seq::WAKE_LOG.lock().unwrap().clone();
+        // (tid, reg) -> first idx, and the po ops of that register
+        for (k, o) in logs[plan.rx_tid].iter().enumerate() {
+            let _ = k;
+            if o.out != "processed" {
+                continue;
+            }
+            let idx = unhex(&o.op[3..]).get(17).copied().unwrap_or(0);
+            for (tid, l) in logs.iter().enumerate() {
+                if tid == plan.tx_tid || tid == plan.rx_tid {
+                    continue;
+                }
+                let mut cur_first: BTreeMap<u32, Option<u8>> = BTreeMap::new();
+                let mut last_po: BTreeMap<u32, (usize, usize, String)> = BTreeMap::new();
+                let mut gone: BTreeMap<u32, bool> = BTreeMap::new();
+                for x in l.iter().filter(|x| x.end <= o.start) {
+                    let f: Vec<&str> = x.op.split(',').collect();
+                    let r: u32 = f.get(1).and_then(|v| v.parse().ok()).unwrap_or(0);
+                    match f[0] {
+                        "al" => {
+                            cur_first.insert(r, None);
+                            last_po.remove(&r);
+                            gone.insert(r, false);
+                        }
+                        "pu" | "re" => {
+                            let g: Vec<&str> = x.out.split('.').collect();
+                            let i = if g[0] == "ok" { g.get(2) } else if g[0] == "some" { g.get(3) } else { None };
+                            if let Some(i) = i {
+                                let e = cur_first.entry(r).or_insert(None);
+                                if e.is_none() {
+                                    *e = Some(i.parse().unwrap());
+                                }
+                            }
+                        }
+                        "po" => {
+                            last_po.insert(r, (x.start, x.end, x.out.clone()));
+                            if x.out.starts_with("ready") {
+                                gone.insert(r, true);
+                            }
+                        }
+                        "df" | "dc" => {
+                            gone.insert(r, true);
+                        }
+                        _ => {}
+                    }
+                }
+                // ops of this thread that overlap the delivery make the order ambiguous: skip
+                if l.iter().any(|x| x.start < o.end && x.end > o.start) {
+                    continue;
+                }
+                for (r, fi) in &cur_first {
+                    if *fi == Some(idx) && !gone.get(r).copied().unwrap_or(false) {
+                        if let Some((po_start, _, out)) = last_po.get(r) {
+                            // a wake-up that arrived after that poll (e.g. the delayed wake of the slot's PREVIOUS
+                            // response) took the registered waker; a real task would have polled again and
+                            // registered anew, this runner does not: not judged
+                            let consumed = wakes.iter().any(|(w, rr, st)| *w == tid && rr == r && *st >= *po_start && *st < o.start);
+                            if out == "pending" && !consumed && !wakes.iter().any(|(w, rr, st)| *w == tid && rr == r && *st >= o.start && *st <= o.end + 1) {
+                                if std::env::var_os("VERIF_DEBUG_WAKE").is_some() {
+                                    eprintln!("no-wakeup: rx op {:?} idx {idx} tid {tid} reg {r} last_po {:?} wakes {:?}", (o.start, o.end, &o.out), last_po.get(r), wakes);
+                                    for x in l.iter() { eprintln!("   T{tid} {}..{} {} -> {}", x.start, x.end, &x.op[..x.op.len().min(40)], &x.out[..x.out.len().min(40)]); }
+                                    for x in logs[plan.rx_tid].iter() { eprintln!("   RX {}..{} {} -> {}", x.start, x.end, &x.op[..x.op.len().min(60)], &x.out[..x.out.len().min(40)]); }
+                                }
+                                rep.fail(&format!("{}/no-wakeup", prof.key), &format!("the response to the request in register {r} of thread {tid} was accepted (RxDone) but the task waiting for it was not woken"), &line);
+                            }
+                        }
+                    }
                 }
             }
         }
